@@ -460,6 +460,10 @@ func (h *hazardCtx) walk(n J) J {
 		_ = l
 	case "dotbad":
 		// neutral form: the same two operands as an index expression, a[b + c]
+		// (`a. // c` newline `b`: the right side is a COMMENT, read as an operand - that is fmt-comment-in-expression-position)
+		if i, _ := n["i"].(J); i != nil && i["k"] == "cmt" {
+			break
+		}
 		if h.hit(hzDotIndex) {
 			n["k"] = "idx"
 		}
